@@ -530,6 +530,11 @@ impl<T: SizedShape, L: LenShape> Shape for FlatVec<T, L> {
             }
             arr!(0, 1, 2, 3, 4, 5, 6);
         }
+        if r == 0xF5 {
+            // an iterator whose size_hint is loose: (0, Some(len + 3)), yields exactly len items
+            let n = xs.len();
+            return vec::FromIterator((0..n + 3).filter(move |i| *i < n).map(|i| T::from_val(&xs[i]))).emplace_unchecked(bytes);
+        }
         if r == 0xF7 {
             // reserved route: an iterator that does not know its length (size_hint().0 == 0)
             return vec::FromIterator(xs.iter().map(T::from_val).filter(|_| true)).emplace_unchecked(bytes);
